@@ -49,14 +49,15 @@ UcSlen(b) == UcSlenFrom(b, 0)                                                  \
 RECURSIVE UcOffFrom(_, _, _)
 UcOffFrom(b, o, e) == IF o < e /\ B(b, o) # 0 THEN 1 + UcOffFrom(b, UcNext(b, o), e) ELSE 0
 UcOff(b, e) == UcOffFrom(b, 0, e)                                              \* uc_off(s, off)
-(* uc_chr(s, off): byte offset, or -1 for the static empty string *)
+(* uc_chr(s, off): byte offset of the off-th character; beyond the last character the result is an empty string,   *)
+(* identified with the end of s (the code returns the terminator of s; before the repair it was a static "")      *)
 RECURSIVE UcChrFrom(_, _, _, _)
-UcChrFrom(b, o, i, off) == IF B(b, o) = 0 THEN (IF off < 0 \/ i = off THEN o ELSE -1)
+UcChrFrom(b, o, i, off) == IF B(b, o) = 0 THEN o
                            ELSE IF i = off THEN o ELSE UcChrFrom(b, UcNext(b, o), i + 1, off)
 UcChr(b, off) == UcChrFrom(b, 0, 0, off)
 
 (* ---- expected results for a valid string, from the code points only ------- *)
-ChrRef(cps, off) == IF off < 0 THEN NBytes(cps) ELSE IF off <= Len(cps) THEN StartOf(cps, off) ELSE -1
+ChrRef(cps, off) == IF off < 0 THEN NBytes(cps) ELSE IF off <= Len(cps) THEN StartOf(cps, off) ELSE NBytes(cps)
 OffRef(cps, e)   == Cardinality({k \in 0..Len(cps) - 1 : StartOf(cps, k) < e})
 SubRef(cps, a, z) == EncAll(SubSeq(cps, a + 1, z))
 NextRef(cps, k)  == IF k < Len(cps) THEN StartOf(cps, k + 1) ELSE NBytes(cps)
